@@ -40,6 +40,7 @@ ArrBV == <<"arr", <<T1(<<"#", "*">>, "ident", "v")>>, "f">>
 ArrAi == <<"arr", <<T1(<< >>, "ident", "a")>>, "i">>
 ArrQ  == <<"arr", <<T1(<<"?">>, "ident", "a")>>, "f">>
 ArrQV == <<"arr", <<T1(<<"*", "?">>, "ident", "v")>>, "f">>
+ArrBQV == <<"arr", <<T1(<<"#", "*", "?">>, "ident", "v")>>, "f">>
 ArrAny == <<"arr", <<T1(<< >>, "dots", "")>>, "s">>
 LeafCatalogue ==
   [int |-> <<"int">>, str |-> <<"str">>, tup2 |-> <<"tup2">>, any |-> <<"any">>,
@@ -49,7 +50,7 @@ LeafCatalogue ==
    utA |-> <<"union", <<"tupA", ArrA>>, ArrV>>,
    ptA |-> <<"pt", ArrA>>, ptI |-> <<"pt", <<"int">>>>, ptptA |-> <<"pt", <<"pt", ArrA>>>>,
    arrQ |-> ArrQ, arrQV |-> ArrQV, uQ |-> <<"union", ArrQ, <<"int">>>>, tupQ |-> <<"tupA", ArrQ>>,
-   ptQ |-> <<"pt", ArrQ>>, arrAny |-> ArrAny,
+   ptQ |-> <<"pt", ArrQ>>, arrAny |-> ArrAny, arrBQV |-> ArrBQV,
    ptSQ |-> <<"ptS", ArrQ, SName0("U")>>, ptSA |-> <<"ptS", ArrA, SName0("U")>>,
    arrQa |-> <<"arr", <<T1(<<"?">>, "ident", "a"), T1(<< >>, "ident", "a")>>, "f">>,
    arraQ |-> <<"arr", <<T1(<< >>, "ident", "a"), T1(<<"?">>, "ident", "a")>>, "f">>]
@@ -71,6 +72,9 @@ MemoCatalogue ==
    qT23a |-> PMemo(Bind(Bind([a |-> 3], QK(0, "a"), 2), QK(1, "a"), 3), EmptyFn, [T |-> Pair2]),
    tpair |-> PMemo(EmptyFn, EmptyFn, [T |-> Pair2]),
    tpair_a2 |-> PMemo([a |-> 2], EmptyFn, [T |-> Pair2]),
+   \* broadcastable per-leaf bindings of 'v' (leaf 0: (1,), leaf 1: (2,)) next to a plain v = (3,)
+   qTbv |-> PMemo(EmptyFn, Bind(Bind([v |-> [b |-> FALSE, s |-> <<3>>]], QK(0, "v"), [b |-> TRUE, s |-> <<1>>]), QK(1, "v"), [b |-> TRUE, s |-> <<2>>]),
+                  [T |-> Pair2]),
    qTv |-> PMemo(EmptyFn, Bind(Bind(EmptyFn, QK(0, "v"), [b |-> FALSE, s |-> <<2>>]), QK(1, "v"), [b |-> FALSE, s |-> <<2, 3>>]),
                  [T |-> Pair2])]
 Memos == {MemoCatalogue[m] : m \in MemoSet}
